@@ -445,3 +445,50 @@ pub open spec fn commit_ok<CS: BbsCiphersuite>(m: int, api_id: Seq<u8>) -> bool 
     &&& (m == 0 || (api_id + CS::MAP_MSG_SCALAR@).len() <= 255)
     &&& (api_id + CS::H2S@).len() <= 255
 }
+
+/// prepare_parameters: (msgs, [blind], committed) over generators(gn) ++ blind generators(bgn)
+pub open spec fn pp_scalars<CS: BbsCiphersuite>(msgs: Seq<Vec<u8>>, cm: Seq<Vec<u8>>, blind: Option<Scalar>, api_id: Seq<u8>) -> Seq<Scalar> {
+    msgs_to_scalars_spec::<CS>(msgs, api_id) + (match blind { Some(b) => seq![b], None => Seq::empty() }) + msgs_to_scalars_spec::<CS>(cm, api_id)
+}
+pub open spec fn pp_gens<CS: BbsCiphersuite>(gn: nat, bgn: nat, api_id: Seq<u8>) -> Seq<G1Projective> {
+    generators_spec::<CS>(gn, api_id) + generators_spec::<CS>(bgn, blind_api(api_id))
+}
+pub open spec fn pp_ok<CS: BbsCiphersuite>(nm: int, ncm: int, api_id: Seq<u8>) -> bool {
+    (nm == 0 && ncm == 0) || (api_id + CS::MAP_MSG_SCALAR@).len() <= 255
+}
+pub open spec fn opt_blind(o: Option<&BlindFactor>) -> Option<Scalar> {
+    match o { Some(b) => Some(b.0), None => None }
+}
+
+/// number of blind generators blind_sign derives from the length of commitment_with_proof
+pub open spec fn bsign_m(len: int) -> int {
+    if len == 0 { 0 } else { (len - 48 - 32) / 32 }
+}
+
+/// BlindVerify: CoreVerify over (msgs, blind, committed) with generators(L+1) ++ blind generators(M+1)
+pub open spec fn verify_blind_spec<CS: BbsCiphersuite>(pk: G2Projective, sig: BBSplusSignature, header: Seq<u8>, msgs: Seq<Vec<u8>>, cm: Seq<Vec<u8>>, blind: Scalar) -> bool {
+    core_verify_spec::<CS>(pk, sig, pp_scalars::<CS>(msgs, cm, Some(blind), CS::API_ID_BLIND@), p1_spec::<CS>(),
+        pp_gens::<CS>((msgs.len() + 1) as nat, (cm.len() + 1) as nat, CS::API_ID_BLIND@), header, CS::API_ID_BLIND@)
+}
+
+pub open spec fn opt_g1(o: Option<G1Projective>) -> G1Projective {
+    match o { Some(p) => p, None => g1_zero() }
+}
+pub open spec fn blind_or_zero(o: Option<&BlindFactor>) -> Scalar {
+    match o { Some(b) => b.0, None => s_zero() }
+}
+
+/// the commitment point used by blind_sign: identity for an empty octet string, otherwise the decoded C
+pub open spec fn bsign_commit_ok(c: G1Projective, cwp: Seq<u8>) -> bool {
+    if cwp.len() == 0 { c == g1_zero() } else { exists|x: BBSplusCommitment| #[trigger] commitment_decodes(cwp, x) && x.commitment == c }
+}
+
+/// BlindSign: B = P1 + sum H_i m_i + C, then FinalizeBlindSign over generators(L+1), blind generators(m+1)
+pub open spec fn blind_sign_rel<CS: BbsCiphersuite>(sig: BBSplusSignature, sk: Scalar, pk: G2Projective, c: G1Projective, m: int, header: Seq<u8>, msgs: Seq<Vec<u8>>) -> bool {
+    let gens = generators_spec::<CS>((msgs.len() + 1) as nat, CS::API_ID_BLIND@);
+    let bgens = generators_spec::<CS>((m + 1) as nat, blind_api(CS::API_ID_BLIND@));
+    let b = calculate_b_spec(p1_spec::<CS>(), gens.subrange(1, gens.len() as int), msgs_to_scalars_spec::<CS>(msgs, CS::API_ID_BLIND@), c);
+    let bp = fbs_b::<CS>(pk, b, gens, bgens, header, CS::API_ID_BLIND@);
+    &&& sig.e == fbs_e::<CS>(sk, bp, CS::API_ID_BLIND@)
+    &&& sig.A == g1_mul(bp, s_inv(s_add(sk, sig.e)))
+}
